@@ -47,7 +47,17 @@ CONSTANTS
   Responder,       \* "writer": responses are written by the server's MessageWriter (side "server", always one chunk);
                    \* "peer": by a server that splits them like the client does (Chunker::encode with a chunk size; side
                    \* "peer", not a sender under test) -- the only way the client ever receives a multi chunk message
-  DevClientMerge, DevSeqPerMsg, DevAcceptEq
+  Refuse,          \* size classes beyond MaxChunks that a sender may be asked to send and refuses: subset of {TooMany, TooLarge}
+  MaxRefused,      \* refused messages per history
+  DevClientMerge, DevSeqPerMsg, DevAcceptEq, DevCountRefused
+
+\* A message of size class MaxChunks + 1 needs one chunk more than the sender's max_chunk_count (SendBuffer::write answers
+\* BadCommunicationError after Chunker::encode has made the chunks); one of class MaxChunks + 2 exceeds max_message_size
+\* (Chunker::encode answers BadRequestTooLarge / BadResponseTooLarge).  A refused message emits nothing and leaves the
+\* sequence counter alone (the request id it was given is spent).  The MessageWriter never makes more than one chunk, so it
+\* can only refuse the second kind.  DevCountRefused: the counter is advanced before the chunk limit is tested.
+TooMany == MaxChunks + 1
+TooLarge == MaxChunks + 2
 
 VARIABLES
   cs,        \* client SendBuffer: [seq |-> last_sent_sequence_number, req |-> last_request_id]
@@ -59,10 +69,11 @@ VARIABLES
   cli,       \* client transport: [last, states (request id -> chunks stored), open]
   toAnswer,  \* request ids the server accepted and has not answered
   nMoves,
+  nRef,      \* messages refused by their sender so far
   started,   \* a chunk has been delivered or the adversary has moved (the client sends its requests first)
   evt
 
-vars == <<cs, ss, sent, wire, gone, srv, cli, toAnswer, nMoves, started, evt>>
+vars == <<cs, ss, sent, wire, gone, srv, cli, toAnswer, nMoves, nRef, started, evt>>
 
 Hdr(c) == [req |-> c.req, seq |-> c.seq, fin |-> c.fin, chan |-> c.chan]
 Hdrs(cs_) == [j \in 1..Len(cs_) |-> Hdr(cs_[j])]
@@ -113,11 +124,19 @@ ClientSend(n) ==
   /\ LET r  == cs.req + 1
          m  == Len(sent) + 1
          ch == MkChunks(m, "c2s", r, cs.seq, n) IN
-     /\ cs' = [seq |-> cs.seq + (IF DevSeqPerMsg THEN 1 ELSE n), req |-> r]
-     /\ sent' = Append(sent, [dir |-> "c2s", chunks |-> ch])
-     /\ wire' = [wire EXCEPT !.c2s = @ \o ch]
-     /\ cli' = [cli EXCEPT !.states = @ @@ (r :> <<>>)]
-     /\ evt' = [ev |-> "Send", side |-> "client", n |-> n, ok |-> TRUE, emits |-> Hdrs(ch)]
+     IF n > MaxChunks
+     THEN \* refused by SendBuffer::write: nothing is queued, nothing is sent
+          /\ nRef < MaxRefused /\ nRef' = nRef + 1
+          /\ cs' = [seq |-> cs.seq + (IF DevCountRefused /\ n = TooMany THEN n ELSE 0), req |-> r]
+          /\ cli' = [cli EXCEPT !.states = @ @@ (r :> <<>>)]     \* wait_for_outgoing_message registered the request already
+          /\ evt' = [ev |-> "Send", side |-> "client", n |-> n, ok |-> FALSE, emits |-> <<>>]
+          /\ UNCHANGED <<sent, wire>>
+     ELSE /\ cs' = [seq |-> cs.seq + (IF DevSeqPerMsg THEN 1 ELSE n), req |-> r]
+          /\ sent' = Append(sent, [dir |-> "c2s", chunks |-> ch])
+          /\ wire' = [wire EXCEPT !.c2s = @ \o ch]
+          /\ cli' = [cli EXCEPT !.states = @ @@ (r :> <<>>)]
+          /\ evt' = [ev |-> "Send", side |-> "client", n |-> n, ok |-> TRUE, emits |-> Hdrs(ch)]
+          /\ UNCHANGED nRef
   /\ UNCHANGED <<ss, gone, srv, toAnswer, nMoves, started>>
 
 \* the server answers the oldest accepted request; `n' is the size class of the response (it is one chunk anyway)
@@ -126,12 +145,19 @@ ServerWrite(n) ==
   /\ LET r  == CHOOSE x \in toAnswer : \A y \in toAnswer : x <= y
          m  == Len(sent) + 1
          k  == IF Responder = "writer" THEN 1 ELSE n
-         ch == MkChunks(m, "s2c", r, ss.seq, k) IN
-     /\ ss' = [seq |-> ss.seq + k]
-     /\ sent' = Append(sent, [dir |-> "s2c", chunks |-> ch])
-     /\ wire' = [wire EXCEPT !.s2c = @ \o ch]
+         ch == MkChunks(m, "s2c", r, ss.seq, k)
+         sd == IF Responder = "writer" THEN "server" ELSE "peer" IN
      /\ toAnswer' = toAnswer \ {r}
-     /\ evt' = [ev |-> "Send", side |-> IF Responder = "writer" THEN "server" ELSE "peer", n |-> n, ok |-> TRUE, emits |-> Hdrs(ch)]
+     /\ IF n > MaxChunks
+        THEN \* the response is too large: refused by Chunker::encode, nothing is written
+             /\ nRef < MaxRefused /\ nRef' = nRef + 1
+             /\ evt' = [ev |-> "Send", side |-> sd, n |-> n, ok |-> FALSE, emits |-> <<>>]
+             /\ UNCHANGED <<ss, sent, wire>>
+        ELSE /\ ss' = [seq |-> ss.seq + k]
+             /\ sent' = Append(sent, [dir |-> "s2c", chunks |-> ch])
+             /\ wire' = [wire EXCEPT !.s2c = @ \o ch]
+             /\ evt' = [ev |-> "Send", side |-> sd, n |-> n, ok |-> TRUE, emits |-> Hdrs(ch)]
+             /\ UNCHANGED nRef
   /\ UNCHANGED <<cs, gone, srv, cli, nMoves, started>>
 
 -----------------------------------------------------------------------------
@@ -152,7 +178,7 @@ Move(kind, w) ==
   /\ nMoves' = nMoves + 1
   /\ started' = TRUE
   /\ evt' = [ev |-> "Move", kind |-> kind, w |-> w, m |-> 0]
-  /\ UNCHANGED <<cs, ss, sent, srv, cli, toAnswer>>
+  /\ UNCHANGED <<cs, ss, sent, srv, cli, toAnswer, nRef>>
 
 \* a delivered message is put at the head of its wire again, unmodified
 Replay(m) ==
@@ -162,7 +188,7 @@ Replay(m) ==
      /\ wire' = [wire EXCEPT ![w] = [j \in 1..Len(sent[m].chunks) |-> [sent[m].chunks[j] EXCEPT !.copy = TRUE]] \o @]
      /\ evt' = [ev |-> "Move", kind |-> "Replay", w |-> w, m |-> m]
   /\ nMoves' = nMoves + 1
-  /\ UNCHANGED <<cs, ss, sent, gone, srv, cli, toAnswer, started>>   \* a replay needs a delivery: started already
+  /\ UNCHANGED <<cs, ss, sent, gone, srv, cli, toAnswer, nRef, started>>   \* a replay needs a delivery: started already
 
 -----------------------------------------------------------------------------
 (* Receivers                                                                *)
@@ -191,7 +217,7 @@ DeliverSrv ==
                 /\ toAnswer' = IF ok THEN toAnswer \cup {chunks[1].req} ELSE toAnswer
                 /\ evt' = [ev |-> "Present", rcv |-> "server", chunks |-> Hdrs(chunks), acc |-> ok,
                            code |-> IF v # "ok" THEN v ELSE IF ok THEN "Good" ELSE "decode", last |-> lst]
-  /\ UNCHANGED <<cs, ss, sent, cli, nMoves>>
+  /\ UNCHANGED <<cs, ss, sent, cli, nMoves, nRef>>
 
 \* client TransportState::process_chunk
 DeliverCli ==
@@ -218,7 +244,7 @@ DeliverCli ==
              IN /\ cli' = [last |-> lst, states |-> [x \in DOMAIN cli.states \ {c.req} |-> cli.states[x]], open |-> ok]
                 /\ evt' = [ev |-> "Present", rcv |-> "client", chunks |-> Hdrs(chunks), acc |-> ok,
                            code |-> IF v # "ok" THEN v ELSE IF ok THEN "Good" ELSE "decode", last |-> lst]
-  /\ UNCHANGED <<cs, ss, sent, srv, toAnswer, nMoves>>
+  /\ UNCHANGED <<cs, ss, sent, srv, toAnswer, nMoves, nRef>>
 
 -----------------------------------------------------------------------------
 Init ==
@@ -226,12 +252,12 @@ Init ==
   /\ sent = <<>> /\ wire = [c2s |-> <<>>, s2c |-> <<>>] /\ gone = {}
   /\ srv = [last |-> Seq0, pend |-> <<>>, open |-> TRUE]
   /\ cli = [last |-> Seq0, states |-> <<>>, open |-> TRUE]
-  /\ toAnswer = {} /\ nMoves = 0 /\ started = FALSE
+  /\ toAnswer = {} /\ nMoves = 0 /\ nRef = 0 /\ started = FALSE
   /\ evt = [ev |-> "Config", chan |-> Chan, seq0 |-> Seq0]
 
 Next ==
-  \/ \E n \in 1..MaxChunks : ClientSend(n)
-  \/ \E n \in 1..MaxChunks : ServerWrite(n)
+  \/ \E n \in (1..MaxChunks) \cup Refuse : ClientSend(n)
+  \/ \E n \in (1..MaxChunks) \cup (Refuse \cap {TooLarge}) : ServerWrite(n)
   \/ \E k \in Kinds \ {"Replay"}, w \in {"c2s", "s2c"} : sent # <<>> /\ Move(k, w)
   \/ \E m \in 1..Len(sent) : Replay(m)
   \/ sent # <<>> /\ DeliverSrv
